@@ -1,9 +1,10 @@
 CONSTANTS
   Server = {1, 2, 3}
+  Campaigners = {1, 2, 3}
   MaxTerm = 2
-  MaxProposals = 1
-  MaxCrashes = 1
-  MaxDrops = 1
+  MaxProposals = 0
+  MaxCrashes = 0
+  MaxDrops = 0
   MaxDups = 0
   MaxHeartbeats = 0
   MaxLog = 3
